@@ -9,7 +9,9 @@ every response type x version, record batch, legacy message set, group member me
 assignment / sticky user data and response header structurally (every length cell <- -2, -1,
 0, remainder+1, 2^31-1, huge / overlong varint, raw and with enclosing CRC / length fields
 recomputed; truncation at every cell boundary; bit flips inside CRC extents and in every cell;
-mutated payloads under valid compressed wrappers; other protocol versions) and decodes each
+every length / count off by one and junk trailing inside every length-delimited extent with all CRCs and
+enclosing lengths recomputed; mutated payloads under valid compressed wrappers; other protocol versions; whole
+mutated FRAMES pushed through a real Broker connection) and decodes each
 through the real entry point inside a memory-capped worker process under a watchdog.
 spec/DecoderTrace.tla (TLC, trace validation) judges every recorded outcome."""
 import concurrent.futures
@@ -37,7 +39,10 @@ META = dict(
          "wrappers, Record, response header v0/v1, ConsumerGroupMemberMetadata/Assignment, sticky user data V0/V1 via "
          "deserializeTopicPartitionAssignment, JoinGroup/SyncGroup helpers) every length/count cell x 5-7 adversarial values "
          "(raw and CRC/length-consistent), every cell-boundary truncation and the first 64 byte truncations, bit flips in "
-         "CRC extents and cell headers, cross-version decodes; thorough adds every-byte bit flips and seeded random damage. "
+         "CRC extents and cell headers, cross-version decodes; consistent damage (one length/count +-1 or trailing junk in an "
+         "extent, every CRC and enclosing length recomputed: must fail, return exactly the original records, or be flagged "
+         "partial by the decoder); mutated frames (length field 0..9, 2^31-1, around MaxResponseSize, truncated headers, wrong "
+         "correlation id) through a real Broker over loopback for a v0- and a v1-header request; thorough adds every-byte bit flips and seeded random damage. "
          "Clauses no_panic, no_hang, alloc_proportional, crc_or_length_damage_is_error and the primitive contract are "
          "evaluated by TLC on every recorded outcome.",
     note="exploration, not proof: the mutation space is structural and bounded (one cell at a time in the deterministic "
@@ -115,7 +120,7 @@ def features0(e):
             f["cause"] = "length_" + e["retc"]
         return f
     return {"fam": "body", "type": e.get("type"), "ver": e.get("ver"), "kind": e.get("kind"), "trig": e.get("trig"),
-            "prim": e.get("prim"), "caller": e.get("caller"), "fix": e.get("fix"), "pos": e.get("pos"), "runver": e.get("runver"),
+            "prim": e.get("prim"), "caller": e.get("caller"), "fix": e.get("fix"), "pos": e.get("pos"), "runver": e.get("runver"), "strict": e.get("strict"), "partial": e.get("partial"),
             "res": e.get("res"), "site": e.get("site"),
             "cause": e.get("cause") if e.get("cause") not in ("-", None) else e.get("res"),
             "err": e.get("err"), "alloc_kib": e.get("alloc"), "inlen": e.get("inlen"), "got": e.get("got"), "hex": e.get("hex")}
@@ -227,6 +232,9 @@ def run(ctx):
                         "allocation bound: 64 KiB + 200 x len(input), + 16 MiB when the subject carries a compressed payload",
                         "a surfaced record counts as 'different' when its checksummed content is not that of an original record; "
                         "dropping a partial trailing message/batch is the documented behaviour",
-                        "CRC/length-consistent mutations (the adversary recomputed the checksums) are only judged for panic/hang/allocation",
+                        "CRC/length-consistent adversarial VALUES (-2, -1, 0, huge ...) are only judged for panic/hang/allocation; consistent "
+                        "off-by-one lengths / trailing junk must give an error, exactly the original records, a decoder-flagged partial "
+                        "result, or (fetch block) whole trailing batches dropped after one complete batch",
+                        "frames through a real Broker: allocation up to MaxResponseSize is the documented cap and not judged",
                         "worker subprocess with RLIMIT_AS = current + 1 GiB; hang watchdog 10 s per decode"],
                        save={"trace.ndjson": trace, "detail.ndjson": detail, "programs.ndjson": cases, "violations.ndjson": vfile}, extra_lines=extra)
